@@ -478,6 +478,95 @@ func TestUDPLostThenAnswered(t *testing.T) {
 	ev.Sample(map[string]any{"mode": "udp", "cases": len(cases)})
 }
 
+// TestUDPInSessionLostReply: over the real UDP transport and clock, an in-session
+// command whose reply never arrives ends with an error after exactly one
+// transmission (inside a session a transport failure is final), many times over so
+// that the read deadline and the attempt's context race in both orders.
+func TestUDPInSessionLostReply(t *testing.T) {
+	conns, calls := ev.Pick(4, 8), ev.Pick(12, 60)
+	var wg sync.WaitGroup
+	var mu sync.Mutex
+	var firstMsg string
+	for i := 0; i < conns; i++ {
+		i := i
+		wg.Add(1)
+		go func() {
+			defer wg.Done()
+			msg := func() string {
+				cr := hx.Creds{User: "admin", Password: []byte("pw"), Priv: 4, Suite: hx.Suites12()[(i+int(ev.Seed))%12], Seed: uint64(ev.Seed)*17 + uint64(i)}
+				b := simbmc.New(cr.Seed)
+				cr.Install(b)
+				srv, err := udpnet.Listen(b)
+				if err != nil {
+					return ""
+				}
+				defer srv.Close()
+				tr, err := bmc.DialV2(srv.Addr(), bmc.WithTimeout(time.Duration(15+5*i)*time.Millisecond))
+				if err != nil {
+					return ""
+				}
+				defer tr.Close()
+				ctx, cancel := context.WithTimeout(context.Background(), 20*time.Second)
+				defer cancel()
+				sess, err := tr.NewV2Session(ctx, cr.Opts())
+				if err != nil {
+					return "" // loopback hiccup during set-up: not what is being checked
+				}
+				inSession := 0
+				srv.Arm(func(rx *simbmc.Rx) []udpnet.Reply {
+					if rx.Pkt != nil && rx.Pkt.SessionID != 0 {
+						inSession++
+						return nil // every in-session reply is lost
+					}
+					var out []udpnet.Reply
+					for _, o := range rx.Replies {
+						out = append(out, udpnet.Reply{Data: o.Data})
+					}
+					return out
+				})
+				for k := 0; k < calls; k++ {
+					_, err := sess.GetDeviceID(ctx)
+					mu.Lock()
+					ev.Eval()
+					mu.Unlock()
+					if err == nil {
+						return fmt.Sprintf("UDP, in-session call %d: success although every reply was lost", k+1)
+					}
+				}
+				// every call must have put exactly one datagram on the wire; the total is
+				// compared (not per call) so that a server goroutine lagging behind on a
+				// busy machine cannot shift a datagram into the next call's window
+				deadline := time.Now().Add(2 * time.Second)
+				for {
+					srv.Lock()
+					n := inSession
+					srv.Unlock()
+					if n > calls {
+						return fmt.Sprintf("UDP: %d in-session calls whose replies were all lost put %d datagrams on the wire, want one each (a transport failure inside a session is final)", calls, n)
+					}
+					if n == calls && time.Now().After(deadline.Add(-1900*time.Millisecond)) || time.Now().After(deadline) {
+						break
+					}
+					time.Sleep(5 * time.Millisecond)
+				}
+				return ""
+			}()
+			mu.Lock()
+			defer mu.Unlock()
+			ev.NonTrivial(fmt.Sprintf("udp-insession-lost|%d", i))
+			ev.Label("udp:in-session-lost-reply")
+			if msg != "" && firstMsg == "" {
+				firstMsg = msg
+				ev.Violation("TestUDPInSessionLostReply", map[string]any{"connection": i}, msg)
+			}
+		}()
+	}
+	wg.Wait()
+	if firstMsg != "" {
+		t.Fatalf("%s", firstMsg)
+	}
+}
+
 func TestCoverage(t *testing.T) {
-	ev.RequireLabels(t, 1, "enumeration-complete", "every-final-code", "handshake-enumeration-complete", "retried:inSession=true", "retried:inSession=false", "retried:handshake", "retried:udp")
+	ev.RequireLabels(t, 1, "enumeration-complete", "every-final-code", "handshake-enumeration-complete", "retried:inSession=true", "retried:inSession=false", "retried:handshake", "retried:udp", "udp:in-session-lost-reply")
 }
